@@ -232,9 +232,9 @@ class Skin(Controller):
 
         try:
             index = numpy.array([float(v)
-                                 for v in indexnode.text.split()], dtype=numpy.int32)
+                                 for v in (indexnode.text or '').split()], dtype=numpy.int32)
             vcounts = numpy.array([int(v)
-                                   for v in vcountnode.text.split()], dtype=numpy.int32)
+                                   for v in (vcountnode.text or '').split()], dtype=numpy.int32)
             inputs = [(i.get('semantic'), i.get('source'), int(i.get('offset')))
                       for i in inputnodes]
         except ValueError:
